@@ -226,5 +226,31 @@ def rule_s3(repo):
     return res
 
 
+def rule_s4(repo):
+    """search_method tries the selected facts in several orders; the suggestion must record the order
+    under which the method's search produced it, because apply hands fact_ids to the method as they are."""
+    res = RuleResult('C14.S4', 'a suggestion records the goal and the fact order that were given to the search that produced it', floor=2)
+    f = repo.func(METHOD, 'ProofState.search_method')
+    flow = flow_of(f.node)
+    calls = [c for c in ast.walk(f.node) if isinstance(c, ast.Call) and call_attr(c) == 'search' and len(c.args) >= 3]
+    need(calls, 'ProofState.search_method: call of Method.search not found')
+    goal_arg, facts_arg = calls[0].args[1], calls[0].args[2]
+    need(isinstance(goal_arg, ast.Name) and isinstance(facts_arg, ast.Name), 'ProofState.search_method: search(...) arguments are not plain names')
+    stores = {}
+    for n in ast.walk(f.node):
+        if isinstance(n, ast.Assign) and len(n.targets) == 1 and isinstance(n.targets[0], ast.Subscript) and \
+                isinstance(n.targets[0].slice, ast.Constant) and n.targets[0].slice.value in ('goal_id', 'fact_ids'):
+            stores[n.targets[0].slice.value] = n
+    for key, arg in (('goal_id', goal_arg), ('fact_ids', facts_arg)):
+        st = need(stores.get(key), 'ProofState.search_method: store of %r not found' % key)
+        names = flow.names_closure(st.value)
+        ok = arg.id in names
+        res.add('%s :: ProofState.search_method :: %s-from-search-argument' % (METHOD, key), ok,
+                '%s is computed from `%s`, the argument given to search' % (key, arg.id) if ok else
+                '%s is computed from %s, not from `%s` which the search was called with: a suggestion found under one order of the '
+                'selected facts is recorded (and later applied) with another' % (key, sorted(names)[:4], arg.id), '%s:%d' % (METHOD, st.lineno))
+    return res
+
+
 def rules(repo):
-    return [rule_s1(repo), rule_s2(repo), rule_s3(repo)]
+    return [rule_s1(repo), rule_s2(repo), rule_s3(repo), rule_s4(repo)]
